@@ -71,10 +71,10 @@ Proof. vm_compute. reflexivity. Qed.
 (** a trailing cast to a bare type name on the right spine of the left operand of "<":
     Binary(<, Binary(+, a, TypeCast(b, T)), c) is written "(a+b::T)<c"; without the parentheses
     the reference grammar reads "T<c" as the start of type parameters *)
-Definition cast_tree : expr := EBin LowerThan (EBin Plus (EAtom 0) (ECast (EAtom 1) CBare)) (EAtom 2).
+Definition cast_tree : expr := EBin LowerThan (EBin Plus (EAtom 0) (ECast (EAtom 1) (TyName false))) (EAtom 2).
 
 Example cast_tree_tokens :
-  tokens_of_expr ptbl cast_tree = [KLp; KAtom 0; KOp SPlus; KAtom 1; KCast CBare; KRp; KOp SLt; KAtom 2].
+  tokens_of_expr ptbl cast_tree = [KLp; KAtom 0; KOp SPlus; KAtom 1; KCast (TyName false); KRp; KOp SLt; KAtom 2].
 Proof. vm_compute. reflexivity. Qed.
 
 Example cast_tree_reads_back : option_map strip (parse_expr (tokens_of_expr ptbl cast_tree)) = Some cast_tree.
@@ -85,6 +85,12 @@ Proof. vm_compute. reflexivity. Qed.
 
 (** a type with parameters needs none: "a+b::T<P><c" *)
 Example cast_param_tree_tokens :
-  tokens_of_expr ptbl (EBin LowerThan (EBin Plus (EAtom 0) (ECast (EAtom 1) CParam)) (EAtom 2))
-  = [KAtom 0; KOp SPlus; KAtom 1; KCast CParam; KOp SLt; KAtom 2].
+  tokens_of_expr ptbl (EBin LowerThan (EBin Plus (EAtom 0) (ECast (EAtom 1) (TyName true))) (EAtom 2))
+  = [KAtom 0; KOp SPlus; KAtom 1; KCast (TyName true); KOp SLt; KAtom 2].
+Proof. vm_compute. reflexivity. Qed.
+
+(** the regression class "variadic return": value :: () -> ...Elem < limit must be wrapped *)
+Example variadic_return_cast_is_wrapped :
+  tokens_of_expr ptbl (EBin LowerThan (ECast (EAtom 0) (TyFunVariadic (TyName false))) (EAtom 1))
+  = [KLp; KAtom 0; KCast (TyFunVariadic (TyName false)); KRp; KOp SLt; KAtom 1].
 Proof. vm_compute. reflexivity. Qed.
